@@ -108,7 +108,8 @@ Fixpoint sort_fl (l : list field) : list field :=
 (* output                                                                                 *)
 (* ------------------------------------------------------------------------------------ *)
 
-Inductive ns := NsMacro | NsTag | NsOrd | NsMod.
+(* NsMember T: the attribute / method name space of one class or receiver type T *)
+Inductive ns := NsMacro | NsTag | NsOrd | NsMod | NsMember (owner : string).
 Inductive dk :=
 | DkDefine | DkTypedef | DkStruct | DkProto | DkFunc            (* C *)
 | DkPyAssign | DkPyClass | DkPyDef                               (* Python module level *)
@@ -373,7 +374,7 @@ Definition leaf (b : blk) (fd : fdef) : list decl :=
       | P_AliasMethodDefaultFactory =>
           [mk DkPyDef NsMod (py_default_factory_name pn) (mkUse NsMod "" pn true :: opt_uses (py_defval false t))]
       | G_AliasDef => [mk DkGoType NsMod gn (go_type_uses t)]
-      | G_AliasMethodBpProcessor => [mk DkGoMethod NsMod (gn +++ ".BpProcessor") [mkUse NsMod "" gn false]]
+      | G_AliasMethodBpProcessor => [mk DkGoMethod (NsMember gn) "BpProcessor" [mkUse NsMod "" gn false]]
       | _ => []
       end
   | DEnum n w ms =>
@@ -393,8 +394,8 @@ Definition leaf (b : blk) (fd : fdef) : list decl :=
       | G_EnumType => [mk DkGoType NsMod gn []]
       | G_EnumFieldListWrapped =>
           (map (fun m => mk DkGoConst NsMod (dname LGo KEnumField "" pth (fst m)) [mkUse NsMod "" gn false]) ms)
-      | G_EnumMethodBpProcessor => [mk DkGoMethod NsMod (gn +++ ".BpProcessor") [mkUse NsMod "" gn false]]
-      | G_EnumMethodString => [mk DkGoMethod NsMod (gn +++ ".String") [mkUse NsMod "" gn false]]
+      | G_EnumMethodBpProcessor => [mk DkGoMethod (NsMember gn) "BpProcessor" [mkUse NsMod "" gn false]]
+      | G_EnumMethodString => [mk DkGoMethod (NsMember gn) "String" [mkUse NsMod "" gn false]]
       | _ => []
       end
   | DMsg n x _ fs =>
@@ -404,7 +405,7 @@ Definition leaf (b : blk) (fd : fdef) : list decl :=
       let sf := sort_fl fs in
       let tag := cuse NsTag cn in
       let arrs := filter (fun fl => is_arr (fl_ty fl)) sf in
-      let gm (suffix : string) := mk DkGoMethod NsMod (gn +++ "." +++ suffix) [mkUse NsMod "" gn false] in
+      let gm (suffix : string) := mk DkGoMethod (NsMember gn) suffix [mkUse NsMod "" gn false] in
       match b with
       | H_MessageLengthMacro => [mk DkDefine NsMacro (size_constant_name (upper_case (snake_case cn))) []]
       | H_MessageStruct =>
@@ -449,6 +450,37 @@ Definition leaf (b : blk) (fd : fdef) : list decl :=
       | G_MessageMethodBpProcessInt => [gm "BpProcessInt"]
       | _ => []
       end
+  end.
+
+(* ---- names inside one Python class / one Go struct (not module-level declarations) ---- *)
+Definition is_enum_ty (t : tyx) : bool := match t with TRef r => match r_k r with RkEnum => true | _ => false end | _ => false end.
+Definition py_enum_proxy_prefix : string := "_enum_field_proxy__".
+
+(* the attributes of the dataclass of a message, in the order of impls/py/renderer.py BlockMessage:
+   BYTES_LENGTH, the fields by number (an enum-typed field is followed by its integer proxy),
+   __post_init__, dict_factory, a getter and a setter per enum-typed field, then the seven methods *)
+Definition py_class_attrs (fd : fdef) : list string :=
+  match fd_def fd with
+  | DMsg _ _ _ fs =>
+      let sf := sort_fl fs in
+      let ef := filter (fun fl => is_enum_ty (fl_ty fl)) sf in
+      "BYTES_LENGTH" ::
+      flat_map (fun fl => let f := conv LPy KMessageField (fl_name fl) in
+                          if is_enum_ty (fl_ty fl) then [f; py_enum_proxy_prefix +++ f] else [f]) sf ++
+      ["__post_init__"; "dict_factory"] ++
+      flat_map (fun fl => let f := conv LPy KMessageField (fl_name fl) in ["_get_" +++ f; "_set_" +++ f]) ef ++
+      ["bp_processor"; "bp_set_byte"; "bp_get_byte"; "bp_get_accessor"; "encode"; "decode"; "bp_process_int"]
+  | DEnum _ _ ms => map (fun m => dname LPy KEnumField "" (fd_path fd) (fst m)) ms
+  | _ => []
+  end.
+
+(* fields of the Go struct of a message followed by the methods declared on it *)
+Definition go_msg_methods : list string :=
+  ["Size"; "String"; "Encode"; "Decode"; "BpProcessor"; "BpGetAccessor"; "BpSetByte"; "BpGetByte"; "BpProcessInt"].
+Definition go_struct_members (fd : fdef) : list string :=
+  match fd_def fd with
+  | DMsg _ _ _ fs => map (fun fl => conv LGo KMessageField (fl_name fl)) (sort_fl fs) ++ go_msg_methods
+  | _ => []
   end.
 
 (* BlockComposition: members in order, composite members expanded (depth <= 3 in /repo) *)
@@ -544,7 +576,11 @@ End WithSchema.
 (* ------------------------------------------------------------------------------------ *)
 
 Definition ns_eqb (a b : ns) : bool :=
-  match a, b with NsMacro, NsMacro | NsTag, NsTag | NsOrd, NsOrd | NsMod, NsMod => true | _, _ => false end.
+  match a, b with
+  | NsMacro, NsMacro | NsTag, NsTag | NsOrd, NsOrd | NsMod, NsMod => true
+  | NsMember x, NsMember y => String.eqb x y
+  | _, _ => false
+  end.
 Definition key := (ns * string)%type.
 Definition key_eqb (a b : key) : bool := ns_eqb (fst a) (fst b) && String.eqb (snd a) (snd b).
 Definition dkey (d : decl) : key := (d_ns d, d_name d).
